@@ -18,7 +18,9 @@ KeyCfg == [
   c1 |-> [rk |-> {1},        rthr |-> 1, ts |-> <<4>>, sn |-> <<5>>, tg |-> <<6>>],
   c2 |-> [rk |-> {2},        rthr |-> 1, ts |-> <<7>>, sn |-> <<8>>, tg |-> <<10>>],
   c3 |-> [rk |-> {1, 2},     rthr |-> 2, ts |-> <<4>>, sn |-> <<5>>, tg |-> <<6>>],
-  c4 |-> [rk |-> {1, 2, 13}, rthr |-> 1, ts |-> <<4, 7>>, sn |-> <<5>>, tg |-> <<6>>] ]
+  c4 |-> [rk |-> {1, 2, 13}, rthr |-> 1, ts |-> <<4, 7>>, sn |-> <<5>>, tg |-> <<6>>],
+  \* the root keys of c3 with threshold 1: a hop c5 -> c3 keeps the keys and raises the threshold
+  c5 |-> [rk |-> {1, 2},     rthr |-> 1, ts |-> <<4>>, sn |-> <<5>>, tg |-> <<6>>] ]
 
 MkRoot(v, c, S, len) ==
   [k |-> "root", v |-> v, exp |-> 9, len |-> len, b |-> 1, signers |-> S, cons |-> Cons,
